@@ -3,6 +3,7 @@ package main
 import (
 	"go/constant"
 	"go/token"
+	"go/types"
 	"sort"
 
 	"golang.org/x/tools/go/ssa"
@@ -227,6 +228,11 @@ func isBasicNonPtr(c *ssa.Const) bool {
 
 // nilTest interprets a literal as a statement "x is nil" / "x is not nil".
 func nilTest(l Lit) (x ssa.Value, isNil bool, ok bool) {
+	// a literal over a nil-able (non-boolean) value states "V != nil" (deep.go derives these for values a helper
+	// returns directly)
+	if _, isBasic := l.V.Type().Underlying().(*types.Basic); !isBasic {
+		return l.V, !l.Pol, true
+	}
 	b, isBin := l.V.(*ssa.BinOp)
 	if !isBin || (b.Op != token.EQL && b.Op != token.NEQ) {
 		return nil, false, false
